@@ -4,6 +4,8 @@
 mkdir -p "$B/C14"
 modfile
 (cd "$V/sim" && go build -modfile="$B/harness.mod" -o "$B/C14/vcheck" ./cmd/vcheck) || infra "build of vcheck failed"
+build_clisim "$B/C14/clisim.test"
+export VERIF_CLISIM_BIN="$B/C14/clisim.test"
 case "${1:-quick}" in
   replay) exec "$B/C14/vcheck" replay "$2" ;;
   quick|thorough)
